@@ -87,7 +87,7 @@ def run(out, info, tier, seed):
     t0 = time.time()
     for k in range(n):
         crng = random.Random(seed * 1000003 + k)
-        case = gen.gen_fanin_case(crng) if k % 6 == 1 else gen.gen_parallel_case(crng) if k % 3 == 2 else gen.gen_case(crng, groups=True, clean=0.8, maxn=4)
+        case = gen.gen_chain_case(crng) if k % 8 == 3 else gen.gen_fanin_case(crng) if k % 6 == 1 else gen.gen_parallel_case(crng) if k % 3 == 2 else gen.gen_case(crng, groups=True, clean=0.8, maxn=4)
         if k % 5 == 4: case['mirror'] = crng.choice([1, 2])       # several entities per simulator, connected index by index
         variants = []
         for lazy in (True, False):
@@ -96,6 +96,9 @@ def run(out, info, tier, seed):
         for i in range(case['n']):
             variants.append(dict(lazy=bool(i % 2), cache=True, strategy=f'starve:S{i}', seed=seed * 100 + k + 10 + i, rev=False, fine=False, debug=False))
         variants.append(dict(lazy=True, cache=True, strategy='random', seed=seed * 100 + k + 1, rev=True, fine=False, debug=False))
+        for q in range(2):
+            perm = list(range(case['n'])); crng.shuffle(perm)          # an arbitrary start order
+            variants.append(dict(lazy=bool(q), cache=True, strategy='random', seed=seed * 100 + k + 7 + q, rev=perm, fine=False, debug=False))
         variants.append(dict(lazy=True, cache=True, strategy='random', seed=seed * 100 + k + 4, rev=False, fine=False, debug=False, instant='all'))
         variants.append(dict(lazy=True, cache=True, strategy='random', seed=seed * 100 + k + 5, rev=True, fine=False, debug=False, instant='all'))
         variants.append(dict(lazy=False, cache=True, strategy='random', seed=seed * 100 + k + 6, rev=False, fine=False, debug=False, instant=[f'S{i}' for i in range(case['n']) if crng.random() < 0.5]))
@@ -153,7 +156,7 @@ def run(out, info, tier, seed):
     for v in violations[:1]: out.violations.append(v)
     for fid, rec in known.items(): out.known_hits.append((kf[fid], rec['observed'][0][:200]))
     out.coverage = {'evaluations': evaluations, 'distinct_nontrivial': len(nontriv), 'traces_validated_against_impl': evaluations if model else 0,
-                    'rule': 'per generated case (80% satisfying the data-flow hypotheses): lazy x cache with different schedule strategies, reversed start order, '
+                    'rule': 'per generated case (80% satisfying the data-flow hypotheses): lazy x cache with different schedule strategies, reversed and two randomly permuted start orders (one case in eight is a trigger chain of three or four hops whose simulator indices are a random permutation of the chain positions), '
                             'fine-grained interleaving, debug mode; a subset also with subprocess simulators (remote transport, seeded latencies); '
                             'non-trivial = all variants agreed on a case in which some simulator stepped more than once and connections exist',
                     'samples': samples, 'outcome_histogram': dict(hist), 'differences': len(violations), 'known_finding_hits': list(known)}
